@@ -155,6 +155,16 @@ CHECKS = {
              "and tens of thousands of directed switches of all nine kinds with fresh and started targets in same/other "
              "pools, each followed by exactly the named ULT with the caller READY/BLOCKED/TERMINATED as documented",
         ref="DESIGN.md §5 C11"),
+    "C12": dict(
+        technique="runtime monitoring: per-epoch lifecycle ledger (start/end counters, argument and pool of the epoch, "
+                  "after-exit flag, slices observing a cancel request) over random create/cancel/exit/join/revive/free "
+                  "histories, concurrent state sampler, ASan/LSan for exactly-once release, TSan",
+        category="exploration",
+        text="held on the executions produced: thousands of create/revive epochs per run over all behaviours and cancellation "
+             "points: exit terminates at once, a cancelled unit never starts when cancelled before its first scheduling point "
+             "and otherwise gets at most one more slice, the joiner is always released, revived units run the new function "
+             "once with the new argument from the requested pool, no state is observed after TERMINATED, no leak/double free",
+        ref="DESIGN.md §5 C12"),
 }
 
 
